@@ -575,8 +575,9 @@ fn main() {
             }
         }
     }
-    let r = report.lock().unwrap();
+    let mut r = report.lock().unwrap();
     let _ = plan.rule;
+    r.count("events_over_1MiB_sent_over_a_bridge", cmdlab::hosts::LARGE_EVENTS.load(std::sync::atomic::Ordering::Relaxed));
     r.finish(&args);
 }
 
